@@ -242,6 +242,8 @@ class Gen:
         r = self.rng
         t = obs.text
         x = r.random()
+        if t and len(t) <= 8 and r.random() < 0.06:
+            return t      # the whole text as pattern / separator / prefix
         if t and x < 0.6:
             i = r.randrange(len(t))
             return t[i:i + r.choice([1, 1, 2, 2, 3])]
